@@ -224,3 +224,26 @@ mutant("c10-target-too-small-dropped", "C10", "C10.multi", FD, "                
 mutant("c10-vec-len-not-restored", "C10", "C10.multi", FD, "            Err(e) => {\n                output.resize(len, 0);\n                Err(e)", "            Err(e) => {\n                output.resize(len.max(1), 0);\n                Err(e)")
 mutant("c10-reader-second-segment", "C10", "C10.pair.accounting", RBF, "            let fill2 = fill_length - fill1;\n            debug_assert_eq!(fill_length, fill1 + fill2);\n            let s2 = unsafe {", "            let fill2 = fill_length - fill1 - 1;\n            let s2 = unsafe {")
 benign("c10-rename-bytes-read", "C10", FRAME, "bytes_read", "consumed", count=6)
+
+# ---- C04 -------------------------------------------------------------------------------
+mutant("c04-src-len-forgets-start", "C04", "C04.region.copies", RBF, "                // Src length (see above diagram)\n                self.tail - self.head - start,", "                // Src length (see above diagram)\n                self.tail - self.head,")
+mutant("c04-dst-len-plus-one", "C04", "C04.region.copies", RBF, "                    // Dst length overflowing (see above diagram)\n                    self.head,", "                    // Dst length overflowing (see above diagram)\n                    self.head + 1,")
+mutant("c04-derived-src-keeps-len", "C04", "C04.region.copies", RBF, "                    // Src length (see above diagram)\n                    src.1 - after_tail,", "                    // Src length (see above diagram)\n                    src.1,")
+mutant("c04-wrapped-dst-to-cap", "C04", "C04.region.copies", RBF,
+       "                    unsafe { self.buf.as_ptr().add(self.tail) }, // Dst length (see above diagram)\n                    // Dst length (see above diagram)\n                    self.head - self.tail,",
+       "                    unsafe { self.buf.as_ptr().add(self.tail) }, // Dst length (see above diagram)\n                    // Dst length (see above diagram)\n                    self.cap - self.tail,")
+mutant("c04-third-src-chunk2-len", "C04", "C04.region.copies", RBF, "                        // Src length - chunk 2 (see above diagram on the left)\n                        self.tail,", "                        // Src length - chunk 2 (see above diagram on the left)\n                        self.head,")
+mutant("c04-overshoot-guard-weak", "C04", "C04.overshoot.guards", RBF, "    if min_buffer_size >= COPY_AT_ONCE_SIZE && copy_at_least <= COPY_AT_ONCE_SIZE {", "    if min_buffer_size >= copy_at_least && copy_at_least <= COPY_AT_ONCE_SIZE {")
+mutant("c04-overshoot-multi-guard", "C04", "C04.overshoot.guards", RBF, "        if min_buffer_size >= copy_multiple {", "        if min_buffer_size >= copy_at_least {")
+mutant("c04-tail-no-modulo", "C04", "C04.writers", RBF, "        self.tail = (self.tail + fill_length) % self.cap;\n    }\n\n    pub fn extend_from_reader", "        self.tail = self.tail + fill_length;\n    }\n\n    pub fn extend_from_reader")
+mutant("c04-extend-no-reserve", "C04", "C04.reserve-before-write", RBF, "        self.reserve(len);\n\n        debug_assert!(self.len() + len < self.cap);", "        debug_assert!(self.len() + len < self.cap);")
+mutant("c04-free-no-sentinel", "C04", "C04.region.copies", RBF, "        (x + y).saturating_sub(1)", "        x + y")
+mutant("c04-newcap-no-sentinel", "C04", "C04.region.copies", RBF, "            (self.cap + amount).next_power_of_two(),\n        ) + 1;", "            (self.cap + amount).next_power_of_two(),\n        );")
+mutant("c04-data-lengths-wrong-branch", "C04", "C04.region.copies", RBF, "            (self.cap - self.head, self.tail)\n        };\n        (len_after_head, len_to_tail)", "            (self.cap - self.head, self.tail + 1)\n        };\n        (len_after_head, len_to_tail)")
+mutant("c04-repeat-precondition", "C04", "C04.unchecked-callers", DB, "            if end_idx > buf_len {\n                // We need to copy in chunks.", "            if end_idx > buf_len + 1 {\n                // We need to copy in chunks.")
+mutant("c04-repeat-reserve-after", "C04", "C04.unchecked-callers", DB, "            self.buffer.reserve(match_length);\n            if end_idx > buf_len {", "            if end_idx > buf_len {")
+mutant("c04-new-unchecked-caller", "C04", "C04.unchecked-callers", DB, "    pub fn push(&mut self, data: &[u8]) {\n        self.buffer.extend(data);", "    pub fn push(&mut self, data: &[u8]) {\n        if data.len() == 1 && self.buffer.len() > 0 { self.buffer.reserve(1); unsafe { self.buffer.extend_from_within_unchecked(0, 0) } }\n        self.buffer.extend(data);")
+mutant("c04-ringbuffer-public", "C04", "C04.encapsulation", "ruzstd/src/decoding/mod.rs", "mod ringbuffer;", "pub mod ringbuffer;")
+mutant("c04-chunk-not-min", "C04", "C04.unchecked-callers", DB, "            let chunksize = usize::min(offset, copied_counter_left);", "            let chunksize = usize::max(offset, 1).min(copied_counter_left + 0 * offset).max(offset.min(1));")
+benign("c04-rename-after-tail", "C04", RBF, "after_tail", "first_part", count=10)
+benign("c04-swap-min-args", "C04", RBF, "            let after_tail = usize::min(len, self.cap - self.tail);", "            let after_tail = usize::min(self.cap - self.tail, len);")
